@@ -239,11 +239,16 @@ Definition discover (d : disc) (iss : option bool) : option err :=
   | DMetaTemplated => match iss with Some true => None | _ => Some (EOther KComm) end
   end.
 
-(** [hit]: the cache lookup of this call (JWK of the kid / introspection response
-    of the token / identity payload of the session value) found an entry; the
-    endpoint is then not contacted *)
-Definition reached (hit : bool) (rem : remote) (q : request) : option err :=
-  if hit then None else remote_failure (state_of rem q).
+(** what the cache lookup of a call (JWK of the kid / introspection response of
+    the token / identity payload of the session value) found: nothing, an entry,
+    or — generic only, which stores any 2xx body — an entry that is not JSON.
+    With an entry the endpoint is not contacted. *)
+Inductive lookup := LMiss | LHit | LHitGarbage.
+
+Definition is_hit (h : lookup) : bool := match h with LMiss => false | _ => true end.
+
+Definition reached (h : lookup) (rem : remote) (q : request) : option err :=
+  if is_hit h then None else remote_failure (state_of rem q).
 
 Definition jwt_answer (strict : bool) (v : jwt_verdict) : outcome :=
   match v with
@@ -253,7 +258,7 @@ Definition jwt_answer (strict : bool) (v : jwt_verdict) : outcome :=
   | JValid s => Accepted s
   end.
 
-Definition classify_jwt (src : bsource) (d : disc) (rem : remote) (strict hit : bool) (q : request) : outcome :=
+Definition classify_jwt (src : bsource) (d : disc) (rem : remote) (strict : bool) (hit : lookup) (q : request) : outcome :=
   match bearer_token src q with
   | None => Failed ENoCreds                               (* "no JWT present" caused by the extractor errors *)
   | Some t =>
@@ -283,7 +288,7 @@ Definition intro_answer_of (strict : bool) (i : intro_answer) : outcome :=
 Definition issuer_known (t : token) : option bool :=
   match t_jwt t with JWS known _ => Some known | _ => None end.
 
-Definition classify_intro (src : bsource) (d : disc) (rem : remote) (strict hit : bool) (q : request) : outcome :=
+Definition classify_intro (src : bsource) (d : disc) (rem : remote) (strict : bool) (hit : lookup) (q : request) : outcome :=
   match bearer_token src q with
   | None => Failed ENoCreds
   | Some t =>
@@ -297,23 +302,27 @@ Definition classify_intro (src : bsource) (d : disc) (rem : remote) (strict hit 
     end
   end.
 
-Definition classify_generic (rem : remote) (lifespan hit : bool) (q : request) : outcome :=
+Definition classify_generic (rem : remote) (lifespan : bool) (hit : lookup) (q : request) : outcome :=
   match session_value q with
   | None => Failed ENoCreds
   | Some s =>
-    match reached hit rem q with
-    | Some e => Failed e
-    | None =>
-      match s with
-      | SUnknown => Failed (EOther KComm)                 (* 401 is "unexpected response code" *)
-      | SInactive sub => if lifespan && negb hit then Failed ERejected else Accepted sub   (* a cached payload is not asserted again *)
-      | SNoSubject => Failed (EOther KInternal)
-      | SGood sub => Accepted sub
+    match hit with
+    | LHitGarbage => Failed (EOther KInternal)            (* no subject id in the cached body *)
+    | _ =>
+      match reached hit rem q with
+      | Some e => Failed e
+      | None =>
+        match s with
+        | SUnknown => Failed (EOther KComm)               (* 401 is "unexpected response code" *)
+        | SInactive sub => if lifespan && negb (is_hit hit) then Failed ERejected else Accepted sub   (* a cached payload is not asserted again *)
+        | SNoSubject => Failed (EOther KInternal)
+        | SGood sub => Accepted sub
+        end
       end
     end
   end.
 
-Definition classify (t : atype) (hit : bool) (q : request) : outcome :=
+Definition classify (t : atype) (hit : lookup) (q : request) : outcome :=
   match t with
   | TAnonymous sub => Accepted sub
   | TUnauthorized => Failed ERejected
@@ -336,16 +345,16 @@ Definition fallback_allowed (a : authn) : bool :=
 
 (** the chain as the composite sees it on request [q]; [hits] are the cache
     lookups of the calls, by position (absent = no entry found) *)
-Fixpoint to_chain (q : request) (ca : list authn) (hits : list bool) : list cauthn :=
+Fixpoint to_chain (q : request) (ca : list authn) (hits : list lookup) : list cauthn :=
   match ca with
   | [] => []
   | a :: rest =>
-    let '(h, hs) := match hits with [] => (false, []) | h :: hs => (h, hs) end in
+    let '(h, hs) := match hits with [] => (LMiss, []) | h :: hs => (h, hs) end in
     {| c_out := classify (a_type a) h q; c_fb := fallback_allowed a |} :: to_chain q rest hs
   end.
 
 (** the real chain on a request *)
-Definition authenticate (ca : list authn) (hits : list bool) (q : request) : nat * result :=
+Definition authenticate (ca : list authn) (hits : list lookup) (q : request) : nat * result :=
   execute (to_chain q ca hits).
 
 (* ------------------------------------------------------------------ decidable equalities for the evaluator *)
